@@ -958,6 +958,17 @@ def _release_revalidates(repo) -> bool:
   revalidates = False
   if params:
     owner = params[0]
+    # the owner field read into a local INSIDE the state-lock block is the same fact (a read before the block is stale)
+    held = {'self._worker_pool'}
+    for w in ast.walk(rel.node):
+      if isinstance(w, ast.With) and any(unparse(it.context_expr) == 'self._states_lock' for it in w.items):
+        for y in ast.walk(w):
+          if isinstance(y, ast.Assign) and len(y.targets) == 1 and isinstance(y.targets[0], ast.Name) and (
+              unparse(y.value) == 'self._worker_pool'):
+            name = y.targets[0].id
+            if sum(1 for z in ast.walk(rel.node) if isinstance(z, ast.Name) and z.id == name
+                   and isinstance(z.ctx, ast.Store)) == 1:
+              held.add(name)
 
     def fold(t):
       """'own' / 'notown' / True / False / None (unknown), assuming the owner argument is given."""
@@ -969,7 +980,7 @@ def _release_revalidates(repo) -> bool:
         is_, isnot = isinstance(t.ops[0], (ast.Is, ast.Eq)), isinstance(t.ops[0], (ast.IsNot, ast.NotEq))
         if {l, r} == {owner, 'None'}:
           return False if is_ else True if isnot else None
-        if {l, r} == {'self._worker_pool', owner}:
+        if (l in held and r == owner) or (r in held and l == owner):
           return 'own' if is_ else 'notown' if isnot else None
         return None
       if isinstance(t, ast.Name) and t.id == owner:
@@ -1564,6 +1575,13 @@ _U = 'utils/courier_utils.py'
 _W = 'chainables/courier_worker.py'
 _O = 'chainables/orchestrate.py'
 VARIANTS = [
+    B('release-owner-read-before-the-state-lock', 'chainables/courier_worker.py',
+      "    with self._states_lock:\n      if worker_pool is not None and self._worker_pool is not worker_pool:\n        # Free, or acquired by another pool since the caller looked.\n        return",
+      "    owner = self._worker_pool\n    with self._states_lock:\n      if worker_pool is not None and owner is not worker_pool:\n        return", 'R-C20-12'),
+    OK('release-owner-test-through-a-local', 'chainables/courier_worker.py',
+       "      if worker_pool is not None and self._worker_pool is not worker_pool:\n        # Free, or acquired by another pool since the caller looked.\n        return", "      owner = self._worker_pool\n      if worker_pool is not None and owner is not worker_pool:\n        return"),
+    OK('release-all-loop-variable-renamed', 'chainables/courier_worker.py',
+       "    for worker in workers:\n      if worker.is_available(self):\n        worker.release(self)", "    for w in workers:\n      if w.is_available(self):\n        w.release(self)"),
     OK('unused-workers-through-a-local', 'chainables/orchestrate.py',
        "        worker_pool.release_all(unused_workers)", "        spare = unused_workers\n        worker_pool.release_all(spare)"),
     OK('dead-marker-address-through-a-local', 'utils/courier_utils.py',
